@@ -56,15 +56,24 @@ def gen_molecule(rng, ref, tier):
     rev = rng.random() < 0.5
     span = rng.randint(6, 30)
     origin = rng.randint(100, 3500)
+    clen = molgen.CONTIGS[0][1]
+    edge = rng.random()
+    if edge < 0.06:
+        origin, rev = 0, False              # first mates start at reference position 0 (a falsy coordinate)
+    elif edge < 0.10:
+        origin, rev = clen - span - 2, True  # reverse first mates end exactly at the contig end
+    flavour = rng.choices(['mixed', 'allN', 'q0'], [0.9, 0.05, 0.05])[0]   # fragments that are all N / all quality 0
     n = rng.choice([1, 1, 2, 2, 3, 3, 4, 4, 5, 6, 7, 8, 10, 12])
     frags = []
     # R2-only fragments / one-element read lists are outside the property's quantifier: only a few molecules
     # carry them (observation counter), all others are judged
-    special = rng.choices(['none', 'r2only', 'r1short'], [0.92, 0.05, 0.03])[0]
+    special = rng.choices(['none', 'r2only', 'r1short', 'nomd', 'r2unmapped'], [0.88, 0.04, 0.02, 0.03, 0.03])[0]
     for k in range(n):
         l1 = rng.randint(3, 14)
         s1 = origin + rng.randint(0, 2) if not rev else origin + span - l1 + rng.randint(0, 2)
-        r1 = gen_mate(rng, ref, alt, s1, l1, rev)
+        if rev and edge < 0.10 and edge >= 0.06:
+            s1 = clen - l1
+        r1 = gen_mate(rng, ref, alt, s1, l1, rev, gaps=not (rev and 0.06 <= edge < 0.10))
         e1 = s1 + molgen.ref_len(r1['cigar'])
         l2 = rng.randint(3, 14)
         x = rng.random()
@@ -72,14 +81,24 @@ def gen_molecule(rng, ref, tier):
             s2 = rng.choice([s1 - rng.randint(1, 4), s1, s1 + rng.randint(0, l1), e1, e1 + rng.randint(1, 6), e1 - l2 - rng.randint(0, 3)])
         else:
             s2 = rng.choice([s1 - l2, s1 - l2 + rng.randint(1, l2), s1, s1 + rng.randint(1, 4), s1 - l2 - rng.randint(1, 6), e1 - rng.randint(0, 3)])
-        s2 = max(1, s2)
+        s2 = min(max(0, s2), clen - l2 - 6)
         r2rev = (not rev) if x < 0.93 else rev       # same-orientation mates: not "inwards facing"
         r2 = gen_mate(rng, ref, alt, s2, l2, r2rev)
+        if flavour != 'mixed' and (k == 0 or rng.random() < 0.5):
+            for mt in (r1, r2):
+                if flavour == 'allN':
+                    mt['seq'] = ['N'] * len(mt['seq'])
+                else:
+                    mt['q'] = [0] * len(mt['q'])
         form = rng.choices(['pair', 'r1none'], [0.7, 0.3])[0]
-        if special != 'none' and (k == 0 or rng.random() < 0.2):
+        if special in ('r2only', 'r1short', 'r2unmapped') and (k == 0 or rng.random() < 0.2):
             form = special
         f = {'form': form}
-        if form in ('pair', 'r1none', 'r1short'):
+        if special == 'nomd':     # reads without the optional MD tag (all fragments of the molecule)
+            f['nomd'] = True
+            r1['nomd'] = True
+            r2['nomd'] = True
+        if form in ('pair', 'r1none', 'r1short', 'r2unmapped'):
             f['r1'] = r1
         if form == 'pair':
             f['r2'] = r2
@@ -87,7 +106,7 @@ def gen_molecule(rng, ref, tier):
             r2['rev'] = not rev
             f['r2'] = r2
         frags.append(f)
-    return {'chrom': rng.choice(['chr1', 'chr2']), 'frags': frags}
+    return {'chrom': rng.choice([c for c, _ in molgen.CONTIGS]), 'frags': frags}
 
 
 class Runner:
@@ -109,13 +128,33 @@ class Runner:
             return {'raised': type(ex).__name__}
         return {'consensus': [{'c': str(k[0]), 'pos': int(k[1]), 'b': str(v)} for k, v in cons.items()]}
 
-    def run(self, ref, mol, order, dove, kind, incremental=False, probs=True):
+    def run(self, ref, mol, order, dove, kind, incremental=False, probs=True, merge=False):
         """Build a fresh molecule, add the fragments in `order`. Returns the list of recorded queries:
         incremental: after EVERY addition the same object is queried through both return shapes (kind "inc", order = prefix);
         at the end the plain shape (kind as given) and, with probs, the with_probs_and_obs shape (kind "alt")."""
         out = []
         m = self.Molecule()
-        common = {'dove': dove, 'run_order': order, 'run_kind': kind, 'incr': incremental}
+        common = {'dove': dove, 'run_order': order, 'run_kind': kind, 'incr': incremental, 'merge': merge}
+        if merge:
+            # the other way a molecule grows: two molecules built separately, the first queried, then Molecule.add_molecule
+            half = max(1, len(order) // 2)
+            parts = []
+            for lo, hi in ((0, half), (half, len(order))):
+                p = self.Molecule()
+                for k in range(lo, hi):
+                    reads = molgen.build_reads(self.hdr, ref, mol['chrom'], 'f%d_%d' % (order[k], k), mol['frags'][order[k] - 1],
+                                               tags={'SM': 'cellA', 'RX': 'ACG', 'MX': 'verif'})
+                    p._add_fragment(self.Fragment(reads, assignment_radius=100000, umi_hamming_distance=0)) if len(p) else \
+                        p.add_fragment(self.Fragment(reads, assignment_radius=100000, umi_hamming_distance=0))
+                parts.append(p)
+            m = parts[0]
+            for path in ('plain', 'probs'):
+                out.append(dict(common, kind='inc', path=path, order=order[:half], requeried=path == 'probs', **self.query(m, dove, path)))
+            m.add_molecule(parts[1])
+            assert len(m) == len(order)
+            out.append(dict(common, kind=kind, path='plain', order=order, requeried=True, **self.query(m, dove, 'plain')))
+            out.append(dict(common, kind='alt', path='probs', order=order, requeried=True, **self.query(m, dove, 'probs')))
+            return out
         for k, i in enumerate(order):
             reads = molgen.build_reads(self.hdr, ref, mol['chrom'], 'f%d_%d' % (i, k), mol['frags'][i - 1],
                                        tags={'SM': 'cellA', 'RX': 'ACG', 'MX': 'verif'})
@@ -183,13 +222,15 @@ def main():
                     rng.shuffle(p)
                     perms.append(p)
                 perms.append(ident[::-1])
-            def go(order, dove, kind, incremental=False):
-                for r in runner.run(ref, mol, order, dove, kind, incremental, probs=True):
+            def go(order, dove, kind, incremental=False, merge=False):
+                for r in runner.run(ref, mol, order, dove, kind, incremental, probs=True, merge=merge):
                     emit(dict(r, ev='cons', tid=tid))
             for dove in doves:
                 go(ident, dove, 'base', incremental=n > 1)      # the same object is queried after every addition
                 for j, p in enumerate(perms):
                     go(p, dove, 'perm', incremental=(j == 0))
+                if n > 1:
+                    go(ident[::-1], dove, 'perm', merge=True)     # grown by add_molecule instead of add_fragment
                 dbl = ident + ident
                 go(dbl, dove, 'dup', incremental=n > 1 and n <= 4)
                 if n > 1:
@@ -205,7 +246,7 @@ def main():
                 emit(dict(r, ev='cons', tid=1))
             kind = e.get('run_kind', e['kind'])
             for r in runner.run(ref, mol, e.get('run_order', e['order']), e['dove'], 'perm' if kind == 'base' else kind,
-                                e.get('incr', False), probs=True):
+                                e.get('incr', False), probs=True, merge=e.get('merge', False)):
                 emit(dict(r, ev='cons', tid=1))
             return
 
